@@ -942,8 +942,18 @@ def op_rebind(f, t, a, out):
         if not keys:
             continue
         v = materialize(f, vd)
-        pairs[pg.KeyPath(keys)] = v
         wkeys = list(keys)
+        try:
+            parent = pg.KeyPath(keys[:-1]).query(t) if len(keys) > 1 else t
+            if isinstance(v, pg.Insertion) and not isinstance(parent, pg.List) and \
+                    f.case.get('prop') != 'C02':
+                # an insertion marker only means something to a list; elsewhere it would be
+                # stored as an opaque holder of its value (and of a cycle, if the value is
+                # an ancestor) - not a history the properties speak about
+                v = v.value
+        except Exception:  # pylint: disable=broad-except
+            pass
+        pairs[pg.KeyPath(keys)] = v
         try:
             parent = pg.KeyPath(keys[:-1]).query(t) if len(keys) > 1 else t
             if isinstance(parent, pg.List) and isinstance(wkeys[-1], int) and wkeys[-1] > len(parent):
